@@ -455,6 +455,12 @@ class DefGen:
                         d = None
                         deco.append(Line("code", 0, ")"))
                         self.feat.add("multiline_decorator")
+                    elif r.random() < 0.08:
+                        # "@" and the decorator expression on different lines
+                        deco.append(Line("code", 0, "@\\"))
+                        deco.append(Line("raw", r.choice(["   ", "", "\t"]), "deco"))
+                        d = None
+                        self.feat.add("multiline_decorator")
                 else:
                     d = r.choice(["@ident", "@tag(1)", "@tag('a', k=2)  # c", "@grab"])
                     if r.random() < 0.2:
